@@ -174,3 +174,18 @@ PROPS["C57"] = dict(
     outside="prost's own field parser on hostile payload bytes (the hostile/128-byte harnesses instantiate the generic Codec with a probe message type whose merge only records the bytes handed over; the round-trip harnesses use the crate's real prost message); the FramedRead/FramedWrite plumbing around the codec; payloads > 3 symbolic bytes",
     stubs=[TRACING, FMT], assumptions=[FORGET, "generic instantiations checked: Codec<prost_codec::proto::Message> (round trips) and Codec<Probe> (framing of hostile input)"], hooks=[],
 )
+
+PROPS["C25"] = dict(
+    group="wire", files=["c25.rs"],
+    explanation=(
+        "libp2p_mplex::codec::Codec (Decoder + Encoder, via a cfg(libp2p_verif) mirror of the private frame types) on a "
+        "real BytesMut: (1) decoding [header, len, payload] for a symbolic one-byte header (every flag incl. the invalid "
+        "7, stream ids 0..15) and symbolic payload, whole and at every split point, against the mplex flag table written "
+        "in the harness (kind, remote role, id, payload, mirrored local role, decoder back at Begin); (2) real-encoder -> "
+        "real-decoder round trip for every kind/role; (3) the 1 MiB bound decided from the length varint alone "
+        "(1 MiB+1 rejected without payload, exactly 1 MiB admitted); (4) hostile header/length/payload bytes never "
+        "panic and never over-deliver."),
+    bounds="one-byte headers (stream id < 16); payload <= 1 (quick) / 3 (thorough) symbolic bytes; all split points of those frames; length prefixes {5, 1 MiB, 1 MiB+1, 2^32-1}; hostile: 2 + N <= 6 bytes; unwind 12",
+    outside="multi-byte header varints (stream ids >= 16) and split points inside a multi-byte varint; Multiplexed (substream bookkeeping, C24/C26)",
+    stubs=[TRACING, FMT], assumptions=[FORGET], hooks=["hook: libp2p_mplex::verif_hooks (FrameRepr mirror, CodecHook wrapping the real Codec)"],
+)
